@@ -537,14 +537,52 @@ func c07xWalkGLSL(f *glslx.Field, l *wref.XLayout, path string, bad func(string)
 	}
 }
 
+// c07xFeatures is the coarse construct class used in the keys of the two observers whose known
+// defects fail on tens of thousands of shapes (GLSL blocks, HLSL byte addresses): which layout
+// features the type tree has, not the tree itself (the replay data and the detail carry the tree).
+func c07xFeatures(t *wgen.XT) string {
+	var attr, f16vec, f16, mat2 bool
+	var walk func(t *wgen.XT)
+	walk = func(t *wgen.XT) {
+		switch t.K {
+		case wgen.XArray:
+			walk(t.Elem)
+		case wgen.XStruct:
+			for _, m := range t.Members {
+				attr = attr || m.Align != 0 || m.Size != 0
+				walk(m.T)
+			}
+		default:
+			f16 = f16 || t.S == "f16"
+			f16vec = f16vec || (t.S == "f16" && (t.K == wgen.XVec || t.K == wgen.XMat))
+			mat2 = mat2 || (t.S == "f32" && t.K == wgen.XMat && t.N == 2)
+		}
+	}
+	walk(t)
+	var fs []string
+	for _, f := range []struct {
+		on bool
+		n  string
+	}{{attr, "attr"}, {f16vec, "f16vec"}, {f16 && !f16vec, "f16scalar"}, {mat2, "matCx2f32"}} {
+		if f.on {
+			fs = append(fs, f.n)
+		}
+	}
+	if len(fs) == 0 {
+		return "plain"
+	}
+	return strings.Join(fs, "+")
+}
+
 // ---------------------------------------------------------------- per program
 
 func c07xProgram(r *explore.Run, p *prog) {
 	thorough := p.Case.Family == "F3xt"
-	xc := wgen.F3xAt(thorough, p.Case.Index)
+	xc := wgen.F3xShapeAt(thorough, p.Case.Index)
 	lay := wref.Layout(xc.T)
 	c07xSelfCheck(xc.T, lay)
 	sc := xc.Sig
+	coarse := "F3x/" + xc.Sub + "/" + xc.Mode + "/" + c07xFeatures(xc.T)
 	r.Count("f3x_programs_"+xc.Sub, 1)
 
 	m, stage, err, pn := nagax.Front(p.Src)
@@ -674,7 +712,7 @@ func c07xProgram(r *explore.Run, p *prog) {
 		r.Count("evaluations", 1)
 		seen := map[string]bool{}
 		bad := func(msg string) {
-			violate(seen, "C07|msl-layout|"+c07xClass(msg)+"|"+sc, "C++ layout of the MSL declarations of "+xc.Sig+" differs from the WGSL layout: "+msg, map[string]any{"msl": src})
+			violate(seen, "C07|msl-layout|"+c07xClass(msg)+"|"+sc, "C++ layout of the MSL declarations of "+xc.Sig+" differs from the WGSL layout: "+msg, nil)
 		}
 		// every struct declared for the type tree, by name (covers workgroup-only uses too)
 		done := 0
@@ -708,6 +746,42 @@ func c07xProgram(r *explore.Run, p *prog) {
 			r.Skip("F3x: msl: nothing to lay out")
 		}
 	}()
+
+	// ---- HLSL: byte addresses of storage-buffer accesses
+	if xc.Mode != "uniform" {
+		func() {
+			src, _, err, pn := nagax.HLSL(m, nagax.HLSLConfigs(0)[0].Opts)
+			if err != nil || pn != nil {
+				r.Skip("F3x: hlsl backend error/panic (C08/C10)")
+				return
+			}
+			acc := hlslBufferAccesses(src, r.Skip)
+			seen := map[string]bool{}
+			for _, g := range xc.Globals {
+				if g.Space != "storage" {
+					continue
+				}
+				a, ok := acc[g.Binding]
+				if !ok {
+					r.Skip("F3x: hlsl: no byte-address buffer at the register of the binding")
+					continue
+				}
+				r.Count("evaluations", 1)
+				var leaves []c07xLeaf
+				for _, p := range wgen.XProbes(g.Name, g.T) {
+					cl := map[string]string{"f16": "half", "f32": "float", "i32": "int", "u32": "uint"}[p.S]
+					if p.Atomic {
+						cl = "atomic<" + cl + ">"
+					}
+					leaves = append(leaves, c07xLeaf{Path: p.Path, Off: p.Off, Width: p.Width, Class: cl})
+				}
+				c07xHLSLAddresses(a, leaves, g.RW, func(msg string) {
+					cls, _, _ := strings.Cut(msg, " :: ")
+					violate(seen, "C07|hlsl-address|"+c07xClass(cls)+"|"+coarse, "HLSL byte-address accesses of "+xc.Sig+" do not coincide with the WGSL offsets ("+g.Name+"): "+msg, nil)
+				})
+			}
+		}()
+	}
 
 	// ---- HLSL: constant buffers
 	if xc.Mode == "uniform" {
@@ -744,10 +818,10 @@ func c07xProgram(r *explore.Run, p *prog) {
 			r.Count("evaluations", 1)
 			seen := map[string]bool{}
 			if ms[0].Offset != 0 {
-				violate(seen, "C07|hlsl-cbuffer|member not at offset #|"+sc, "cbuffer member is not at offset 0", map[string]any{"hlsl": src})
+				violate(seen, "C07|hlsl-cbuffer|member not at offset #|"+sc, "cbuffer member is not at offset 0", nil)
 			}
 			c07xWalkHLSL(&ms[0], lay, 0, "src", func(msg string) {
-				violate(seen, "C07|hlsl-cbuffer|"+c07xClass(msg)+"|"+sc, "HLSL constant-buffer packing of "+xc.Sig+" differs from the WGSL layout: "+msg, map[string]any{"hlsl": src})
+				violate(seen, "C07|hlsl-cbuffer|"+c07xClass(msg)+"|"+sc, "HLSL constant-buffer packing of "+xc.Sig+" differs from the WGSL layout: "+msg, nil)
 			}, r.Skip)
 		}()
 	}
@@ -761,7 +835,7 @@ func c07xProgram(r *explore.Run, p *prog) {
 			r.Skip("F3x: glsl backend error/panic (C08/C10)")
 			return
 		}
-		gp, err := glslx.Parse(src)
+		gp, err := glslx.ParseLayout(src)
 		if err != nil {
 			r.Skip("F3x: glsl reader: " + errClass(err.Error()))
 			return
@@ -792,11 +866,11 @@ func c07xProgram(r *explore.Run, p *prog) {
 				found++
 				r.Count("evaluations", 1)
 				if b.Members[0].Offset != 0 {
-					violate(seen, "C07|glsl-layout|member not at offset #|"+sc, "block member is not at offset 0", map[string]any{"glsl": src})
+					violate(seen, "C07|glsl-layout|member not at offset #|"+coarse, "block member is not at offset 0", nil)
 				}
 				c07xWalkGLSL(&b.Members[0], lay, g.Name, func(msg string) {
 					msg = strings.TrimPrefix(msg, g.Name)
-					violate(seen, "C07|glsl-layout|"+b.Packing+"|"+c07xClass(msg)+"|"+sc, b.Packing+" placement of the GLSL block of "+xc.Sig+" differs from the WGSL layout: "+g.Name+msg, map[string]any{"glsl": src})
+					violate(seen, "C07|glsl-layout|"+b.Packing+"|"+c07xClass(msg)+"|"+coarse, b.Packing+" placement of the GLSL block of "+xc.Sig+" differs from the WGSL layout: "+g.Name+msg, nil)
 				}, r.Skip)
 			}
 		}
